@@ -23,6 +23,7 @@ func init() {
 }
 
 func runC26(c *core.Ctx) {
+	checkBnbMiddleAgrees(c)
 	checkCoinSelectorArithmetic(c)
 	ss := c.Fn(pkBtc, "CoinSelector.SortedSearch")
 	if ss != nil {
